@@ -104,7 +104,11 @@ fn worker() {
             let t0 = Instant::now();
             let r = catch_unwind(|| match Parser::parse_sql(&sql) {
                 Ok(stmt) => {
-                    drop(stmt);
+                    if std::env::var("C23_FORGET_AST").is_ok() {
+                        std::mem::forget(stmt); // diagnosis only: separates the parse from the drop of its result
+                    } else {
+                        drop(stmt);
+                    }
                     "ok".to_string()
                 }
                 Err(e) => {
